@@ -743,13 +743,16 @@ func (s *expSession) opData1(i int, op plan.Op) {
 		nrec = 1
 	}
 	maxVar := int(op.D)
-	countDelta, illKind, sizeTarget, shortRec := 0, 0, 0, -1
+	countDelta, countRec, illKind, sizeTarget, shortRec := 0, -1, 0, 0, -1
 	for _, f := range op.F {
 		switch f.K {
 		case "shortrec":
 			shortRec = int(f.A) % nrec
 		case "count":
 			countDelta = int(f.A)
+			if f.B > 0 {
+				countRec = int(f.B-1) % nrec // only this record of the set has the wrong field count
+			}
 		case "illtyped":
 			illKind = int(f.A)
 		case "size":
@@ -803,7 +806,9 @@ func (s *expSession) opData1(i int, op plan.Op) {
 		}
 		recSpecs := specs
 		recWires := wires
-		if countDelta < 0 && len(specs)+countDelta >= 1 {
+		if countRec >= 0 && rec != countRec {
+			// this record is in order
+		} else if countDelta < 0 && len(specs)+countDelta >= 1 {
 			recSpecs, recWires = specs[:len(specs)+countDelta], wires[:len(specs)+countDelta]
 		} else if countDelta > 0 {
 			recSpecs = append(append([]elemSpec(nil), specs...), specs[:min(countDelta, len(specs))]...)
